@@ -4,9 +4,9 @@ WT=/tmp/wt_verify
 git -C /repo worktree remove --force $WT 2>/dev/null
 git -C /repo worktree add --detach $WT HEAD >/dev/null 2>&1 || exit 2
 out=${1:-/tmp/verify.txt}; : > $out
-for d in /verif/seeded/incoming/agent_out_*/[A-Z] /verif/seeded/incoming/agent_out_*/extra_C; do
+for d in /verif/seeded/incoming/agent_out*_*/[A-Z] /verif/seeded/incoming/agent_out*_*/extra_C /verif/seeded/incoming/agent_out*_*/C_bonus; do
   [ -f $d/patch.diff ] || continue
-  name=$(echo $d | sed 's#.*agent_out_##')
+  name=$(echo $d | sed 's#.*incoming/agent_##')
   patch=$d/patch.diff
   port=/verif/seeded/ported/$(echo $name | tr '/' '_').diff
   cd $WT && git checkout -q -- . && git clean -fdq
